@@ -26,6 +26,16 @@ type ImplCase struct {
 	Data  *D
 }
 
+// Job is one unit of work for a worker: a kind and a TAB-free payload of
+// TAB-separated fields; the reply is one line.
+type Job struct {
+	Kind    string
+	Payload string
+}
+
+// Handlers maps job kinds to their implementation inside the worker.
+var Handlers = map[string]func(payload string) string{}
+
 // WorkerMain is the body of `check -worker`.
 func WorkerMain() {
 	debug.SetMaxStack(256 << 20)
@@ -35,17 +45,23 @@ func WorkerMain() {
 		line, err := in.ReadString('\n')
 		if len(line) > 0 {
 			line = strings.TrimRight(line, "\n")
-			parts := strings.SplitN(line, "\t", 2)
-			res := Outcome{Class: "badcase"}
-			if len(parts) == 2 {
-				qb, e1 := hex.DecodeString(parts[0])
-				d, e2 := ParseD(parts[1])
-				if e1 == nil && e2 == nil {
-					res = RunImpl(string(qb), Build(d))
+			kind, payload, _ := strings.Cut(line, "\t")
+			if hnd, ok := Handlers[kind]; ok {
+				fmt.Fprintf(out, "%s\n", strings.ReplaceAll(hnd(payload), "\n", " "))
+				out.Flush()
+			} else {
+				parts := strings.SplitN(payload, "\t", 2)
+				res := Outcome{Class: "badcase"}
+				if kind == "eval" && len(parts) == 2 {
+					qb, e1 := hex.DecodeString(parts[0])
+					d, e2 := ParseD(parts[1])
+					if e1 == nil && e2 == nil {
+						res = RunImpl(string(qb), Build(d))
+					}
 				}
+				fmt.Fprintf(out, "%s\t%s\n", res.String(), hex.EncodeToString([]byte(res.Note)))
+				out.Flush()
 			}
-			fmt.Fprintf(out, "%s\t%s\n", res.String(), hex.EncodeToString([]byte(res.Note)))
-			out.Flush()
 		}
 		if err != nil {
 			return
@@ -77,7 +93,7 @@ func parseWorkerLine(l string) Outcome {
 var CaseTimeout = 20 * time.Second
 
 // runShard runs cases[lo:hi) in one worker at a time, restarting after deaths.
-func runShard(self string, cases []ImplCase, res []Outcome, lo, hi int) {
+func runShard(self string, cases []Job, res []string, lo, hi int) {
 	i := lo
 	for i < hi {
 		cmd := exec.Command(self, "-worker")
@@ -86,7 +102,7 @@ func runShard(self string, cases []ImplCase, res []Outcome, lo, hi int) {
 		cmd.Stderr = io.Discard
 		if err := cmd.Start(); err != nil {
 			for ; i < hi; i++ {
-				res[i] = Outcome{Class: "fatal", Note: "cannot start worker: " + err.Error()}
+				res[i] = "fatal\t" + hex.EncodeToString([]byte("cannot start worker: "+err.Error()))
 			}
 			return
 		}
@@ -104,9 +120,9 @@ func runShard(self string, cases []ImplCase, res []Outcome, lo, hi int) {
 		dead := false
 		for i < hi && !dead {
 			c := cases[i]
-			_, werr := fmt.Fprintf(stdin, "%s\t%s\n", hex.EncodeToString([]byte(c.Query)), c.Data.String())
+			_, werr := fmt.Fprintf(stdin, "%s\t%s\n", c.Kind, c.Payload)
 			if werr != nil {
-				res[i] = Outcome{Class: "fatal", Note: "worker died (write)"}
+				res[i] = "fatal\t" + hex.EncodeToString([]byte("worker died (write)"))
 				i++
 				dead = true
 				break
@@ -114,15 +130,15 @@ func runShard(self string, cases []ImplCase, res []Outcome, lo, hi int) {
 			select {
 			case l, ok := <-lines:
 				if !ok {
-					res[i] = Outcome{Class: "fatal", Note: "worker died (stack overflow, fatal runtime error or exit)"}
+					res[i] = "fatal\t" + hex.EncodeToString([]byte("worker died (stack overflow, fatal runtime error or exit)"))
 					i++
 					dead = true
 				} else {
-					res[i] = parseWorkerLine(l)
+					res[i] = l
 					i++
 				}
 			case <-time.After(CaseTimeout):
-				res[i] = Outcome{Class: "hang", Note: fmt.Sprintf("no answer within %s", CaseTimeout)}
+				res[i] = "hang\t" + hex.EncodeToString([]byte(fmt.Sprintf("no answer within %s", CaseTimeout)))
 				i++
 				dead = true
 			}
@@ -135,9 +151,10 @@ func runShard(self string, cases []ImplCase, res []Outcome, lo, hi int) {
 	}
 }
 
-// RunImplBatch evaluates all cases on the implementation, in nproc workers.
-func RunImplBatch(cases []ImplCase, nproc int) []Outcome {
-	res := make([]Outcome, len(cases))
+// RunJobs runs the jobs in nproc crash-isolating workers; one raw reply line per job
+// ("fatal\t.." / "hang\t.." when the worker died or stayed silent on that job).
+func RunJobs(cases []Job, nproc int) []string {
+	res := make([]string, len(cases))
 	self, err := os.Executable()
 	if err != nil {
 		panic(err)
@@ -165,5 +182,19 @@ func RunImplBatch(cases []ImplCase, nproc int) []Outcome {
 		}(lo, hi)
 	}
 	wg.Wait()
+	return res
+}
+
+// RunImplBatch evaluates all cases on the implementation, in nproc workers.
+func RunImplBatch(cases []ImplCase, nproc int) []Outcome {
+	jobs := make([]Job, len(cases))
+	for i, c := range cases {
+		jobs[i] = Job{Kind: "eval", Payload: hex.EncodeToString([]byte(c.Query)) + "\t" + c.Data.String()}
+	}
+	raw := RunJobs(jobs, nproc)
+	res := make([]Outcome, len(cases))
+	for i, l := range raw {
+		res[i] = parseWorkerLine(l)
+	}
 	return res
 }
